@@ -379,3 +379,18 @@ func flush() {
 	}
 	_ = os.WriteFile(filepath.Join(r.outDir, "fp.bin"), buf, 0o644)
 }
+
+// Fuzzing reports whether this process runs (or serves) a native fuzz campaign started by the driver.
+func Fuzzing() bool { return os.Getenv("VERIF_FUZZ") != "" }
+
+// FuzzConvert is called at the top of every native fuzz body, after the fuzz arguments have been turned into the
+// package's Case value. In convert mode (the driver re-runs a crasher file that killed or hung a fuzz worker, which
+// therefore could not save anything itself) it stores the case in the ordinary replay format WITHOUT executing it and
+// returns true; the body must then return.
+func FuzzConvert(kind string, desc any) bool {
+	if os.Getenv("VERIF_FUZZ_CONVERT") == "" {
+		return false
+	}
+	SaveFail(kind, desc, "the fuzz worker process died or hung while executing this case (see the campaign log next to this file)")
+	return true
+}
